@@ -6,13 +6,14 @@ namespace RtenVerif.ShapeInfer
 theorem isOne_eval (σ : Env) (a : Sym) (h : a.isOne = true) : a.eval σ = some 1 := by
   cases a <;> simp_all [Sym.isOne, Sym.eval]
 
-/-- **C10.T1-broadcast (one dimension)**: for non-empty dimensions (`x, y ≥ 1`), if NumPy
+/-- **C10.T1-broadcast (one dimension)**: for ALL sizes (zero-sized dimensions included, since fix
+a4a397a of `eval`), if NumPy
 broadcasting of the instantiated sizes succeeds with `z`, the inferred dimension evaluates to `z` —
 in every arm: structurally equal, literal 1 on either side, symbol against a fixed size (where the
 rule *assumes* compatibility and returns the fixed size), and the `Broadcast(a, b)` fallback when
-compatibility is unknown. (For `x = 1, y = 0` the fallback is wrong: `c10_broadcast_zero_dim_false`.) -/
+compatibility is unknown. -/
 theorem c10_bdim_sound (σ : Env) (a b d : Sym) (x y z : Int)
-    (ha : a.eval σ = some x) (hb : b.eval σ = some y) (hx : 1 ≤ x) (hy : 1 ≤ y)
+    (ha : a.eval σ = some x) (hb : b.eval σ = some y)
     (hi : bdim a b = .ok d) (he : cb x y = some z) : d.eval σ = some z := by
   unfold bdim at hi
   unfold cb at he
@@ -66,32 +67,32 @@ theorem c10_bdim_sound (σ : Env) (a b d : Sym) (x y z : Int)
             · simp [hy1] at he; rw [← he]
             · simp [hy1] at he
         · cases hi
-          simp only [Sym.eval, ha, hb, Option.bind_eq_bind, Option.bind_some, Option.pure_def]
+          simp only [Sym.eval, ha, hb, Option.bind_eq_bind, Option.bind_some, Option.pure_def, bcastI]
           by_cases hxy : x = y
-          · simp [hxy] at he; subst he; simp [hxy]
+          · simp [hxy] at he; subst he; subst hxy
+            by_cases h1 : x = 1 <;> simp [h1]
           · simp only [hxy, if_false] at he
             by_cases hx1 : x = 1
-            · simp [hx1] at he; subst he; subst hx1; congr 1; omega
+            · simp [hx1] at he; subst he; simp [hx1]
             · simp only [hx1, if_false] at he
               by_cases hy1 : y = 1
-              · simp [hy1] at he; subst he; subst hy1; congr 1; omega
+              · simp [hy1] at he; subst he; simp [hx1, hy1]
               · simp [hy1] at he
 
 /-- **C10.T1-broadcast (padded shapes)**. -/
 theorem c10_bdims_sound (σ : Env) : ∀ (as bs out : List Sym) (xs ys zs : List Int),
     evalList σ as = some xs → evalList σ bs = some ys →
-    (∀ x ∈ xs, 1 ≤ x) → (∀ y ∈ ys, 1 ≤ y) →
     bdims as bs = .ok out → cbs xs ys = some zs → evalList σ out = some zs := by
   intro as
   induction as with
   | nil =>
-    intro bs out xs ys zs ha _ _ _ hi he
+    intro bs out xs ys zs ha _ hi he
     simp only [evalList, mapO] at ha; cases ha
     simp only [bdims] at hi; cases hi
     simp only [cbs] at he; cases he
     rfl
   | cons a as ih =>
-    intro bs out xs ys zs ha hb hx hy hi he
+    intro bs out xs ys zs ha hb hi he
     obtain ⟨x, xs', hax, has, rfl⟩ := evalList_cons σ a as xs ha
     cases bs with
     | nil =>
@@ -120,8 +121,8 @@ theorem c10_bdims_sound (σ : Env) : ∀ (as bs out : List Sym) (xs ys zs : List
             | some zs' =>
               simp only [hzs] at he; cases he
               exact evalList_cons_intro σ d r z zs'
-                (c10_bdim_sound σ a b d x y z hax hby (hx x (by simp)) (hy y (by simp)) hd hz)
-                (ih bs r xs' ys' zs' has hbs (fun v hv => hx v (by simp [hv])) (fun v hv => hy v (by simp [hv])) hr hzs)
+                (c10_bdim_sound σ a b d x y z hax hby hd hz)
+                (ih bs r xs' ys' zs' has hbs hr hzs)
 
 theorem evalList_padLeft (σ : Env) (n : Nat) (ds : List Sym) (vs : List Int) (h : evalList σ ds = some vs) :
     evalList σ (padLeft n ds) = some (padC n vs) := by
@@ -134,11 +135,10 @@ theorem evalList_padLeft (σ : Env) (n : Nat) (ds : List Sym) (vs : List Int) (h
   | succ k ih => simpa [List.replicate_succ] using evalList_cons_intro σ (.val 1) _ 1 _ rfl ih
 
 /-- **C10.T1-broadcast (shape rule)**: for two tensors whose inferred forms agree with the executed
-ones and whose executed dimensions are all ≥ 1, if `BinaryOp` infers a shape and NumPy broadcasting
+ones (empty dimensions included), if `BinaryOp` infers a shape and NumPy broadcasting
 of the executed shapes succeeds, every inferred dimension evaluates to the broadcast dimension. -/
 theorem c10_binaryShape_sound (σ : Env) (a b : STn) (ca cb' : CT) (ad bd out : List Sym) (zs : List Int)
     (ha : Agrees σ a ca) (hb : Agrees σ b cb') (had : a.dims = some ad) (hbd : b.dims = some bd)
-    (hpa : ∀ x ∈ ca.dims, 1 ≤ x) (hpb : ∀ y ∈ cb'.dims, 1 ≤ y)
     (hi : binaryShape a b = .ok (.shape out)) (he : cbroadcast ca.dims cb'.dims = some zs) :
     Agrees σ (.shape out) (.shaped zs) := by
   have ea := dims_agree σ a ca ad ha had
@@ -152,13 +152,7 @@ theorem c10_binaryShape_sound (σ : Env) (a b : STn) (ca cb' : CT) (ad bd out : 
   | ok r =>
     simp only [hr, Except.map] at hi
     cases hi
-    have pos : ∀ (n : Nat) (vs : List Int), (∀ x ∈ vs, 1 ≤ x) → ∀ x ∈ padC n vs, 1 ≤ x := by
-      intro n vs h x hx
-      unfold padC at hx
-      rcases List.mem_append.mp hx with h1 | h1
-      · have := List.eq_of_mem_replicate h1; omega
-      · exact h x h1
     exact c10_bdims_sound σ _ _ _ _ _ zs (evalList_padLeft σ _ ad _ ea) (evalList_padLeft σ _ bd _ eb)
-      (pos _ _ hpa) (pos _ _ hpb) hr he
+      hr he
 
 end RtenVerif.ShapeInfer
